@@ -220,7 +220,8 @@ def ins_spec(model="gauss2", seed=1, nlive=100, kills=(), run_again=0, save=None
 def validate_ins(histories, scratch: Path, tag="ins"):
     from .pack_ins import pack_ins
 
-    packed = [pack_ins(load_events([f for f in h["events"] if os.path.exists(f)])) for h in histories]
+    packed = [pack_ins(promote_completed_ckpt(load_events([f for f in h["events"] if os.path.exists(f)])))
+              for h in histories]
     groups = {}
     for i, h in enumerate(histories):
         kw = h["spec"]["kwargs"]
